@@ -1,5 +1,11 @@
 """C12 — finalize locks the configuration; unlock_config always restores the lock."""
+import atexit
 import itertools
+import os
+import shutil
+import sys
+import tempfile
+import types
 
 from vf import probes, snap
 from vf.teq import canon
@@ -11,7 +17,13 @@ RULE = ('random operation histories over {finalize, bind, parse binding, parse m
         'bindings / same parameter by same or different spelling / invalid key / raising), configs finalize must reject (unbound macro, '
         'unevaluated macro reference, unknown-reference placeholder at depth, top-level %gin.REQUIRED)}; a lock-FSM + store model is '
         'compared with config_is_locked(), the binding store and the exception class after every operation, and every hook records '
-        'the configuration it was shown. thorough adds all sequences of length<=4 over a 12-op alphabet. distinct = op-kind sequences')
+        'the configuration it was shown. Registrations under the lock also cover classes (constructor must stay untouched), classes '
+        'with a registered method (the method keeps its name) and implicit registration by a dynamic-registration parse; bindings under '
+        'the lock also go through tuple/list keys, parse_config(list), parse_config_file, include and parse_config_files_and_bindings; '
+        'valid configurations holding references (bound macro, constant, @f, @f(), nested, as dict key) must be accepted; unlock_config '
+        'is also left by an exception of a gin operation, by closing a generator suspended inside the block, used as a decorator and '
+        'through a context manager created in another lock state than the one it is entered in. thorough adds all sequences of '
+        'length<=4 over a 16-op alphabet. distinct = op-kind sequences')
 TIERS = {
     'quick': {'workers': 8, 'cases': 4200, 'timeout': 600, 'exhaustive_len': 0},
     'thorough': {'workers': 16, 'cases': 12000, 'timeout': 3000, 'exhaustive_len': 4},
@@ -23,7 +35,22 @@ REQUIRED_BUCKETS = ['op:finalize', 'op:bind', 'op:parse', 'op:macro', 'op:regist
                     'state:unlock-while-locked', 'state:unlock-raises-while-locked', 'state:finalize-inside-unlock',
                     'reject:unbound-macro', 'reject:unevaluated-macro', 'reject:unknown-reference', 'reject:required', 'reject:unbound-macro-as-dict-key', 'reject:unknown-reference-unevaluated',
                     'reject:hook-conflict', 'reject:hook-conflict-spelling', 'reject:hook-conflict-same-value', 'op:register-hook', 'reject:hook-invalid-key', 'reject:hook-raises',
-                    'hooks:return-bindings-applied', 'hooks:saw-pre-finalize-config', 'op:from-another-thread']
+                    'hooks:return-bindings-applied', 'hooks:saw-pre-finalize-config', 'op:from-another-thread',
+                    # registrations of classes and implicit (dynamic) registrations, with and without the lock
+                    'op:register-class', 'op:register-class-with-registered-method', 'op:register-dynamic',
+                    'state:register-class-under-lock', 'state:register-class-with-registered-method-under-lock', 'state:register-dynamic-under-lock',
+                    # every binding entry point under the lock
+                    'state:bind-tuple-key-under-lock', 'state:parse-list-under-lock', 'state:parse-file-under-lock', 'state:parse-include-under-lock',
+                    'state:pcfab-under-lock', 'state:pcfab-file-under-lock', 'state:pcfab-fin-under-lock',
+                    # valid configurations with references
+                    'accept:bound-macro', 'accept:bound-macro-nested', 'accept:constant', 'accept:configurable', 'accept:call', 'accept:scoped-call',
+                    'accept:nested', 'accept:dict-key', 'accept:dynamically-registered-reference', 'reject:macro-not-bound-when-finalizing',
+                    # exit paths of unlock_config
+                    'op:unlock-gin-exception', 'state:unlock-gin-exception-while-locked', 'op:unlock-generator-close', 'state:unlock-generator-close-while-locked',
+                    'op:unlock-decorator', 'state:unlock-decorator-while-locked', 'unlock:cm-created-unlocked-entered-locked',
+                    'unlock:cm-created-locked-entered-unlocked',
+                    # hook keys
+                    'reject:hook-conflict-tuple-key', 'reject:hook-conflict-partial-module', 'hooks:updated-bound-parameter']
 ORACLE_COUNTERS = ['oracle_evals', 'ops_compared']
 
 _S = {'plan': [None, None], 'seen': []}
@@ -59,11 +86,61 @@ def setup(ctx):
 
   gc.register_finalize_hook(make_hook(0))
   gc.register_finalize_hook(make_hook(1))
+  # an importable module for dynamic registration: fresh, unregistered classes are put into it one per operation. The configurables
+  # bound by the histories live in it too: once a configuration uses dynamic registration, gin's config_str (part of the messages
+  # of a rejecting finalize) imports the defining module of every configurable that has bindings
+  mod = types.ModuleType('c12dyn_' + ctx.uid)
+  sys.modules[mod.__name__] = mod
+  _S['dynmod'] = mod
   _S['f'] = probes.build({'shape': 'fn', 'api': 'external', 'name': 'f', 'module': 'c12.sub', 'pos': [], 'dflt': [['a', 0], ['b', 0], ['c', 0]],
-                          'varargs': False, 'kwonly': [], 'varkw': False})
+                          'varargs': False, 'kwonly': [], 'varkw': False, 'pymodule': mod.__name__})
+  mod.f = _S['f'].original
   gin.constant('c12.CONST', 5)
 
+  # a second configurable that receives the VALID references (f.c is where the configurations finalize must reject go)
+  def g(r=0, s=0):
+    return (r, s)
+  g.__module__ = mod.__name__
+  mod.g = g
+  gin.external_configurable(g, 'g', module='c12.sub')
+  _S['g'] = g
+  # files for parse_config_file / include / parse_config_files_and_bindings: one per distinct text, written once
+  _S['dir'] = tempfile.mkdtemp(prefix='vf-c12-')
+  _S['files'] = {}
+  atexit.register(shutil.rmtree, _S['dir'], True)
 
+
+def config_file(text):
+  path = _S['files'].get(text)
+  if path is None:
+    path = _S['files'][text] = os.path.join(_S['dir'], 'c%d.gin' % len(_S['files']))
+    with open(path, 'w') as fh:
+      fh.write(text)
+  return path
+
+
+GSEL = 'c12.sub.g'
+# valid configurations containing references: text, canonical stored value, needs the macro c12m to be bound when finalizing
+VALIDREFS = {
+    'bound-macro': ("g.r = %c12m", ('ref', 'c12m/gin.macro', True), True),
+    'bound-macro-nested': ("g.r = [1, (%c12m,)]", ('list', (('int', 1), ('tuple', (('ref', 'c12m/gin.macro', True),)))), True),
+    'constant': ("g.r = %c12.CONST", ('ref', 'c12.CONST/gin.constant', True), False),
+    'configurable': ("g.r = @f", ('ref', 'c12.sub.f', False), False),
+    'call': ("g.r = @sub.f()", ('ref', 'c12.sub.f', True), False),
+    'scoped-call': ("g.r = @s/f()", ('ref', 's/c12.sub.f', True), False),
+    'nested': ("g.r = [1, {'k': (@f(), %c12.CONST)}]",
+               ('list', (('int', 1), ('dict', ((('str', 'k'), ('tuple', (('ref', 'c12.sub.f', True), ('ref', 'c12.CONST/gin.constant', True)))),)))), False),
+    'dict-key': ("g.r = {@f: %c12.CONST}", ('dict', ((('ref', 'c12.sub.f', False), ('ref', 'c12.CONST/gin.constant', True)),)), False),
+}
+VALIDREF_KINDS = sorted(VALIDREFS) + ['bound-macro', 'bound-macro', 'bound-macro-nested', 'bound-macro-nested']
+MACRO_KEY = ('c12m', 'gin.macro')
+REGISTER_APIS = ['register', 'external', 'configurable', 'again', 'class-configurable', 'class-register', 'class-external',
+                 'class-method-register', 'class-method-external', 'dynamic', 'dynamic']
+BIND_FORMS = ['str', 'str', 'str', 'tuple', 'list', 'partial']
+PARSE_APIS = ['string', 'string', 'string', 'string', 'list', 'file', 'include', 'pcfab', 'pcfab-file', 'pcfab-fin']
+UNLOCK_HOWS = ['ok', 'ok', 'ok', 'ok', 'BodyError', 'BodyError', 'BodyBase', 'BodyBase', 'StopIteration', 'gin-ValueError', 'gin-SyntaxError',
+               'gin-RuntimeError', 'generator-close']
+UNLOCK_VIAS = ['with', 'with', 'with', 'decorator', 'early', 'early-decorator']
 POISONS = {
     'unbound-macro': ("f.c = %c12_undefined_macro", None, ('ref', 'c12_undefined_macro/gin.macro', True)),
     'unevaluated-macro': ("f.c = @c12m/gin.macro", None, ('ref', 'c12m/gin.macro', False)),
@@ -76,7 +153,8 @@ POISONS = {
     'unknown-reference-as-dict-key': ("f.c = {@c12_nosuch(): 1}", True, None),
     'unknown-reference-unevaluated': ("f.c = @c12_nosuch", True, None),
 }
-HOOKPLANS = ['none', 'new', 'conflict', 'conflict-spelling', 'conflict-same-value', 'invalid-key', 'raise', 'two-distinct']
+HOOKPLANS = ['none', 'new', 'conflict', 'conflict-spelling', 'conflict-same-value', 'invalid-key', 'raise', 'two-distinct',
+             'conflict-tuple', 'conflict-partial', 'update-bound', 'update-bound']
 
 
 def gen_ops(rng, depth=0, n=None):
@@ -85,21 +163,27 @@ def gen_ops(rng, depth=0, n=None):
     k = rng.random()
     if k < 0.2:
       ops.append(['finalize'])
-    elif k < 0.32:
-      ops.append(['bind', rng.choice(['a', 'b']), rng.choice(['', 's']), rng.randrange(100)])
-    elif k < 0.42:
-      ops.append(['parse', rng.choice(['a', 'b']), rng.choice(['', 's']), rng.randrange(100), rng.random() < 0.3])
-    elif k < 0.48:
+    elif k < 0.3:
+      ops.append(['bind', rng.choice(['a', 'b']), rng.choice(['', 's']), rng.randrange(100), rng.choice(BIND_FORMS)])
+    elif k < 0.4:
+      ops.append(['parse', rng.choice(['a', 'b']), rng.choice(['', 's']), rng.randrange(100), rng.random() < 0.3, rng.choice(PARSE_APIS)])
+    elif k < 0.45:
       ops.append(['macro', rng.randrange(100)])
-    elif k < 0.54:
-      ops.append(['register', rng.choice(['register', 'external', 'configurable', 'again'])] if rng.random() < 0.8 else ['register-hook'])
-    elif k < 0.6:
+    elif k < 0.53:
+      ops.append(['register', rng.choice(REGISTER_APIS)] if rng.random() < 0.85 else ['register-hook'])
+    elif k < 0.58:
       ops.append(['clear'])
-    elif k < 0.78 and depth < 3:
-      ops.append(['unlock', gen_ops(rng, depth + 1, rng.randrange(0, 4)), rng.choice(['ok', 'ok', 'BodyError', 'BodyBase'])])
-    elif k < 0.88:
+    elif k < 0.76 and depth < 3:
+      how = rng.choice(UNLOCK_HOWS)
+      via = rng.choice(UNLOCK_VIAS)
+      ops.append(['unlock', gen_ops(rng, depth + 1, rng.randrange(0, 4)), how, via])
+    elif k < 0.8:
+      ops.append(['mkcm'])
+    elif k < 0.87:
       ops.append(['hookplan', rng.choice(HOOKPLANS)])
-    elif k < 0.96:
+    elif k < 0.925:
+      ops.append(['validref', rng.choice(VALIDREF_KINDS), rng.choice(['', '', 's'])])
+    elif k < 0.975:
       ops.append(['poison', rng.choice(sorted(POISONS)), rng.choice(['', '', 's', 's/t'])])
     else:
       ops.append(['unpoison'])
@@ -118,6 +202,8 @@ class Model:
     self.store = {}
     self.plan = 'none'
     self.poisons = {}
+    self.gr = {}    # scope -> kind of the valid reference bound to g.r there
+    self.cms = []   # unlock_config() context managers created but not entered yet: (object, lock state when it was created)
 
   def set(self, scope, sel, param, cv):
     self.store.setdefault((scope, sel), {})[param] = cv
@@ -141,6 +227,14 @@ def plan_bindings(plan):
   if plan == 'conflict-same-value':
     # two hooks updating the same parameter are rejected whatever they want to set it to
     return {'h/f.a': 'same'}, {('h', 'sub.f', 'a'): 'same'}, 'reject:hook-conflict-same-value', {}
+  if plan == 'conflict-tuple':
+    # the key forms bind_parameter accepts: (scope, selector, parameter) tuples, with a partial and with the full selector
+    return {('h', 'f', 'a'): 'h0'}, {('h', 'c12.sub.f', 'a'): 'h1'}, 'reject:hook-conflict-tuple-key', {}
+  if plan == 'conflict-partial':
+    return {'h/f.a': 'h0'}, {'h/sub.f.a': 'h1'}, 'reject:hook-conflict-partial-module', {}
+  if plan == 'update-bound':
+    # parameters the history itself binds (as s/f.a, f.b, ...), updated by hooks that spell them differently
+    return {'s/sub.f.a': 'hu'}, {('', 'c12.sub.f', 'b'): 'hub'}, None, {('s', 'a'): 'hu', ('', 'b'): 'hub'}
   if plan == 'invalid-key':
     return {'h/f.a': 'h0'}, {'c12_unknown_configurable.x': 1}, 'reject:hook-invalid-key', {}
   if plan == 'raise':
@@ -166,6 +260,31 @@ def in_thread(fn):
   return box.get('r')
 
 
+def make_class(name, with_method, module):
+  """A fresh class (optionally with a method gin accepts as a method of that class: same module, reachable under its own name)."""
+  def __init__(self, z=1):
+    self.z = z
+  __init__.__qualname__ = name + '.__init__'
+  ns = {'__init__': __init__, '__module__': module}
+  meth = None
+  if with_method:
+    def meth(self, q=1):
+      return q
+    meth.__name__ = 'm_' + name
+    meth.__qualname__ = name + '.' + meth.__name__
+    meth.__module__ = module
+    ns[meth.__name__] = meth
+  return type(name, (object,), ns), meth
+
+
+def is_registered(gin, obj_or_selector):
+  try:
+    gin.get_configurable(obj_or_selector)
+    return True
+  except ValueError:
+    return False
+
+
 def run_ops(ctx, m, ops, depth, shape):
   """Runs ops against gin and model; returns normally (exceptions from unlock bodies are raised by the caller)."""
   import gin
@@ -181,7 +300,7 @@ def run_ops(ctx, m, ops, depth, shape):
     if other_thread:
       ctx.bucket('op:from-another-thread')
     label = '%r (locked=%s%s)' % (op if kind != 'unlock' else ['unlock', '...', op[2]], m.locked, ', from another thread' if other_thread else '')
-    if kind in ('bind', 'parse', 'macro', 'poison', 'unpoison', 'register') and m.locked:
+    if kind in ('bind', 'parse', 'macro', 'poison', 'unpoison', 'register', 'validref') and m.locked:
       ctx.bucket('state:mutation-under-lock')
     if kind == 'finalize':
       ctx.bucket('op:finalize')
@@ -195,6 +314,11 @@ def run_ops(ctx, m, ops, depth, shape):
         expect_exc = ValueError
         for pk in set(m.poisons.values()):
           ctx.bucket('reject:' + pk)
+      elif any(VALIDREFS[k][2] for k in m.gr.values()) and 'value' not in m.store.get(MACRO_KEY, {}):
+        # a reference to the macro c12m is bound but the macro itself is not (it never was, or clear_config removed it). Which of a
+        # raising user hook and the built-in validation is reported first is not pinned down
+        expect_exc = (ValueError, HookError) if rej == 'reject:hook-raises' else ValueError
+        ctx.bucket('reject:macro-not-bound-when-finalizing')
       elif rej:
         expect_exc = HookError if rej == 'reject:hook-raises' else ValueError
         ctx.bucket(rej)
@@ -211,10 +335,17 @@ def run_ops(ctx, m, ops, depth, shape):
         ctx.check(all(r == 1 for r in runs) and sorted(i for i, _ in _S['seen']) == [0, 1], 'finalize-did-not-run-every-hook',
                   '%s: hooks registered during earlier histories ran %r times, the two initial hooks %r' % (label, runs, sorted(i for i, _ in _S['seen'])))
       if expect_exc is None:
+        if any(prm in m.store.get((sc, SEL), {}) and m.store[(sc, SEL)][prm] != canon(v) for (sc, prm), v in applied.items()):
+          ctx.bucket('hooks:updated-bound-parameter')
         for (sc, prm), v in applied.items():
           m.set(sc, SEL, prm, canon(v))
         if applied:
           ctx.bucket('hooks:return-bindings-applied')
+        # a valid configuration may hold references: bound macros, constants, @f, @f(), also nested and as dict keys
+        for k in set(m.gr.values()):
+          ctx.bucket('accept:' + k)
+        if m.store.get(('', GSEL), {}).get('s') is not None:
+          ctx.bucket('accept:dynamically-registered-reference')
         m.locked = True
       if not (m.locked and expect_exc is RuntimeError):
         # every hook that ran was shown the configuration as it was before finalize
@@ -224,8 +355,15 @@ def run_ops(ctx, m, ops, depth, shape):
     elif kind == 'bind':
       ctx.bucket('op:bind')
       expect_exc = RuntimeError if m.locked else None
+      form = op[4] if len(op) > 4 else 'str'
+      pre = op[2] + '/' if op[2] else ''
+      key = {'str': pre + 'f.' + op[1], 'partial': pre + 'sub.f.' + op[1], 'tuple': (op[2], 'sub.f', op[1]), 'list': [op[2], SEL, op[1]]}[form]
+      if form in ('tuple', 'list'):
+        ctx.bucket('op:bind-tuple-key')
+        if m.locked:
+          ctx.bucket('state:bind-tuple-key-under-lock')
       try:
-        call(lambda: gin.bind_parameter((op[2] + '/' if op[2] else '') + 'f.' + op[1], op[3]))
+        call(lambda: gin.bind_parameter(key, op[3]))
       except Exception as e:  # pylint: disable=broad-except
         got_exc = e
       if not m.locked:
@@ -234,13 +372,33 @@ def run_ops(ctx, m, ops, depth, shape):
       ctx.bucket('op:parse')
       expect_exc = RuntimeError if m.locked else None
       pre = op[2] + '/' if op[2] else ''
-      text = ('%sf:\n  %s = %d\n' % (pre, op[1], op[3])) if op[4] else ('%ssub.f.%s = %d' % (pre, op[1], op[3]))
+      api = op[5] if len(op) > 5 else 'string'
+      from_file = api in ('file', 'include', 'pcfab-file', 'pcfab-fin')
+      val = op[3] % 5 + 100 if from_file else op[3]  # few distinct files
+      text = ('%sf:\n  %s = %d\n' % (pre, op[1], val)) if op[4] else ('%ssub.f.%s = %d' % (pre, op[1], val))
+      if api != 'string':
+        ctx.bucket('op:parse-' + api)
+        if m.locked:
+          ctx.bucket('state:%s-under-lock' % (api if api.startswith('pcfab') else 'parse-' + api))
+      path = config_file(text + '\n') if from_file else None
+      lines = [l for l in text.split('\n') if l]
+      # parse_config_files_and_bindings finalizes by default: left to do so only where the lock must stop it before
+      fin = {} if api == 'pcfab-fin' and m.locked else {'finalize_config': False}
+      parse = {
+          'string': lambda: gin.parse_config(text),
+          'list': lambda: gin.parse_config(lines),
+          'file': lambda: gin.parse_config_file(path),
+          'include': lambda: gin.parse_config("include '%s'\n" % path),
+          'pcfab': lambda: gin.parse_config_files_and_bindings([], lines, **fin),
+          'pcfab-file': lambda: gin.parse_config_files_and_bindings([path], None, **fin),
+          'pcfab-fin': lambda: gin.parse_config_files_and_bindings([path], '', **fin),
+      }[api]
       try:
-        call(lambda: gin.parse_config(text))
+        call(parse)
       except Exception as e:  # pylint: disable=broad-except
         got_exc = e
       if not m.locked:
-        m.set(op[2], SEL, op[1], canon(op[3]))
+        m.set(op[2], SEL, op[1], canon(val))
     elif kind == 'macro':
       ctx.bucket('op:macro')
       expect_exc = RuntimeError if m.locked else None
@@ -271,6 +429,71 @@ def run_ops(ctx, m, ops, depth, shape):
       if m.locked:
         ctx.check(gc._REGISTRY['c12.' + again.__name__] is entry, 'registration-vs-lock', '%s: registering an already registered object again replaced its registry entry '
                   '(denylist %r -> %r)' % (label, entry.denylist, gc._REGISTRY['c12.' + again.__name__].denylist))
+    elif kind == 'register' and op[1] == 'dynamic':
+      # implicit registration: a parse with dynamic registration registers every object it mentions that is not registered yet.
+      # Under the lock the parse raises and the class is not registered (the binding key names a configurable that exists already,
+      # so the fresh class in the value is the only thing to register)
+      ctx.bucket('op:register-dynamic')
+      if m.locked:
+        ctx.bucket('state:register-dynamic-under-lock')
+      expect_exc = RuntimeError if m.locked else None
+      mod = _S['dynmod']
+      cname = 'K%d' % next(_reg)
+      cls, _ = make_class(cname, False, mod.__name__)
+      setattr(mod, cname, cls)
+      text = 'from __gin__ import dynamic_registration\nimport %s\n%s.g.s = @%s.%s()\n' % (mod.__name__, mod.__name__, mod.__name__, cname)
+      try:
+        call(lambda: gin.parse_config(text))
+      except Exception as e:  # pylint: disable=broad-except
+        got_exc = e
+      registered = is_registered(gin, cls)
+      ctx.check(registered == (not m.locked), 'dynamic-registration-vs-lock',
+                '%s: after parsing a reference to an unregistered class with dynamic registration the class is %sregistered' % (label, '' if registered else 'not '))
+      if not m.locked:
+        m.set('', GSEL, 's', ('ref', '%s.%s' % (mod.__name__, cname), True))
+      else:
+        delattr(mod, cname)
+    elif kind == 'register' and op[1].startswith('class-'):
+      # registering a CLASS does more than write a registry entry: gin.configurable replaces the constructor, and registering a class
+      # that has a registered method renames the method's entry. Under the lock none of that may have happened when the call raises
+      api = op[1].split('-')[-1]
+      with_method = op[1].startswith('class-method-')
+      ctx.bucket('op:register-class-with-registered-method' if with_method else 'op:register-class')
+      if m.locked:
+        ctx.bucket('state:register-class%s-under-lock' % ('-with-registered-method' if with_method else ''))
+      expect_exc = RuntimeError if m.locked else None
+      name = 'C12cls%d_%s' % (next(_reg), ctx.uid)
+      cls, meth = make_class(name, with_method, __name__)
+      if with_method:
+        # the method is registered on its own first (outside the history: the lock flag is put aside for it)
+        gc._set_config_is_locked(False)
+        try:
+          gin.register(meth)
+        finally:
+          gc._set_config_is_locked(m.locked)
+        old_sel, new_sel = '%s.%s' % (meth.__module__, meth.__name__), 'c12.%s.%s' % (name, meth.__name__)
+        if not is_registered(gin, old_sel):
+          raise RuntimeError('harness: the method was not registered as %s' % old_sel)
+      ctor = cls.__dict__['__init__']
+      try:
+        if api == 'register':
+          call(lambda: gin.register(name, module='c12')(cls))
+        elif api == 'external':
+          call(lambda: gin.external_configurable(cls, name, module='c12'))
+        else:
+          call(lambda: gin.configurable(name, module='c12')(cls))
+      except Exception as e:  # pylint: disable=broad-except
+        got_exc = e
+      registered = is_registered(gin, 'c12.' + name)
+      ctx.check(registered == (not m.locked), 'registration-vs-lock',
+                '%s: after %s of a class the name is %sregistered' % (label, api, '' if registered else 'not '))
+      if m.locked:
+        ctx.check(cls.__dict__.get('__init__') is ctor and '__new__' not in cls.__dict__, 'registration-under-lock-changed-class',
+                  '%s: %s of a class raised %r but replaced its constructor' % (label, api, got_exc))
+        if with_method:
+          ctx.check(is_registered(gin, old_sel) and not is_registered(gin, new_sel), 'registration-under-lock-renamed-method',
+                    '%s: %s of a class raised %r but its registered method is now known as %s: %s, as %s: %s'
+                    % (label, api, got_exc, old_sel, is_registered(gin, old_sel), new_sel, is_registered(gin, new_sel)))
     elif kind == 'register':
       api = op[1]
       ctx.bucket('op:external' if api == 'external' else 'op:register')
@@ -302,6 +525,25 @@ def run_ops(ctx, m, ops, depth, shape):
       m.locked = False
       m.store = {}
       m.poisons = {}
+      m.gr = {}
+    elif kind == 'validref':
+      # bindings whose values are references finalize must ACCEPT (as long as the macro they may name is bound when finalizing)
+      ctx.bucket('op:validref')
+      text, cv, _ = VALIDREFS[op[1]]
+      expect_exc = RuntimeError if m.locked else None
+      try:
+        gin.parse_config((op[2] + '/' if op[2] else '') + text)
+      except Exception as e:  # pylint: disable=broad-except
+        got_exc = e
+      if not m.locked:
+        m.set(op[2], GSEL, 'r', cv)
+        m.gr[op[2]] = op[1]
+    elif kind == 'mkcm':
+      # an unlock_config() context manager is created now and entered later, possibly in another lock state: creating it changes
+      # nothing, and the lock state it restores is the one on ENTRY
+      ctx.bucket('op:mkcm')
+      if len(m.cms) < 3:
+        m.cms.append((gin.unlock_config(), m.locked))
     elif kind == 'hookplan':
       ctx.bucket('op:hookplan')
       m.plan = op[1]
@@ -345,6 +587,7 @@ def run_ops(ctx, m, ops, depth, shape):
         m.poisons = {}
     elif kind == 'unlock':
       body, how = op[1], op[2]
+      via = op[3] if len(op) > 3 else 'with'
       ctx.bucket('op:unlock')
       if depth >= 1:
         ctx.bucket('op:unlock-nested')
@@ -352,26 +595,92 @@ def run_ops(ctx, m, ops, depth, shape):
         ctx.bucket('state:unlock-while-locked')
       saved = m.locked
       raised = None
+      cm = None
+      if via.startswith('early'):
+        if m.cms:
+          cm, made_locked = m.cms[0]
+          if via == 'early' or how == 'generator-close':
+            m.cms.pop(0)  # entered with `with`: used up. As a decorator it makes a new context manager for every call
+          if made_locked != saved:
+            ctx.bucket('unlock:cm-created-%s-entered-%s' % ('locked' if made_locked else 'unlocked', 'locked' if saved else 'unlocked'))
+        else:
+          via = 'with' if via == 'early' else 'decorator'
+      if how == 'generator-close':
+        via = 'early' if cm is not None else 'with'  # the suspended generator holds the block open with a `with` statement
+      box = {}
+
+      def block():
+        m.locked = False
+        ctx.check(gin.config_is_locked() is False, 'unlock-block-still-locked', '%s: inside unlock_config the config is locked' % label)
+        run_ops(ctx, m, body, depth + 1, shape)
+        if how == 'BodyError':
+          raise BodyError('body')
+        if how == 'BodyBase':
+          raise BodyBase('body')
+        if how == 'StopIteration':
+          raise StopIteration('body')
+        if how.startswith('gin-'):
+          # the block is left by the exception of a gin operation itself
+          try:
+            if how == 'gin-SyntaxError':
+              gin.parse_config('f.a = = 1')
+            elif how == 'gin-RuntimeError' and m.locked:
+              gin.bind_parameter('f.a', 0)  # the body finalized: the lock guard's own exception leaves the block
+            else:
+              gin.bind_parameter('c12_unknown_configurable.x', 1)
+          except Exception as e:  # pylint: disable=broad-except
+            box['gin'] = e
+            raise
+          # the operations are invalid whatever the lock state, except the bind after the body finalized: there the guard did not fire
+          ctx.check(False, 'expected-exception-missing', '%s: the gin operation ending the block (locked=%s) did not raise' % (label, m.locked))
+          raise BodyError('body')  # leave the block by an exception all the same
+
       try:
-        with gin.unlock_config():
-          m.locked = False
-          ctx.check(gin.config_is_locked() is False, 'unlock-block-still-locked', '%s: inside unlock_config the config is locked' % label)
-          run_ops(ctx, m, body, depth + 1, shape)
-          if how == 'BodyError':
-            raise BodyError('body')
-          if how == 'BodyBase':
-            raise BodyBase('body')
-      except (BodyError, BodyBase) as e:
+        if how == 'generator-close':
+          # a generator is suspended inside the block and closed: the block is left by GeneratorExit
+          def suspended():
+            with (cm if cm is not None else gin.unlock_config()):
+              block()
+              yield 1
+          it = suspended()
+          next(it)
+          it.close()
+        elif via.endswith('decorator'):
+          (cm if cm is not None else gin.unlock_config())(block)()
+        else:
+          with (cm if cm is not None else gin.unlock_config()):
+            block()
+      except (BodyError, BodyBase, StopIteration) as e:
         raised = e
-      if how != 'ok':
+      except Exception as e:  # pylint: disable=broad-except
+        if e is not box.get('gin'):
+          raise
+        raised = e
+      if how in ('BodyError', 'BodyBase'):
+        ctx.check(raised is not None and type(raised).__name__ == how, 'unlock-swallowed-exception', '%s: body exception %s did not propagate' % (label, how))
+      if how not in ('ok', 'generator-close'):
         ctx.bucket('op:unlock-raises')
         if saved:
           ctx.bucket('state:unlock-raises-while-locked')
-        ctx.check(raised is not None and type(raised).__name__ == how, 'unlock-swallowed-exception', '%s: body exception %s did not propagate' % (label, how))
+      if how.startswith('gin-') or how == 'generator-close':
+        tag = 'gin-exception' if how.startswith('gin-') else how
+        ctx.bucket('op:unlock-' + tag)
+        if saved:
+          ctx.bucket('state:unlock-%s-while-locked' % tag)
+      if via != 'with':
+        tag = 'decorator' if via.endswith('decorator') else 'early-cm'
+        ctx.bucket('op:unlock-' + tag)
+        if saved:
+          ctx.bucket('state:unlock-%s-while-locked' % tag)
       m.locked = saved
       ctx.count('ops_compared')
-      ctx.check(gin.config_is_locked() == m.locked, 'unlock-did-not-restore-lock' if how != 'ok' else 'unlock-did-not-restore-lock-normal-exit',
-                '%s: after leaving unlock_config (%s) locked=%s, on entry it was %s' % (label, how, gin.config_is_locked(), saved))
+      key = 'unlock-did-not-restore-lock' + ('-normal-exit' if how == 'ok' else '-gin-exception' if how.startswith('gin-') else
+                                             '-generator-close' if how == 'generator-close' else '')
+      if via != 'with':
+        key += '-decorator' if via.endswith('decorator') else ''
+        key += '-cm-created-earlier' if cm is not None else ''
+      ctx.check(gin.config_is_locked() == m.locked, key,
+                '%s: after leaving unlock_config (%s, used as %s) locked=%s, on entry it was %s' % (label, how, via, gin.config_is_locked(), saved))
       if gin.config_is_locked() != m.locked:
         gc._set_config_is_locked(m.locked)  # resynchronise so one defect is reported once per history
       continue
@@ -382,7 +691,7 @@ def run_ops(ctx, m, ops, depth, shape):
       ctx.check(got_exc is None, 'unexpected-exception', '%s raised %s: %s' % (label, type(got_exc).__name__, str(got_exc)[:300]))
     else:
       ctx.check(isinstance(got_exc, expect_exc), 'expected-exception-missing',
-                '%s: expected %s, got %r' % (label, expect_exc.__name__, got_exc))
+                '%s: expected %s, got %r' % (label, getattr(expect_exc, '__name__', expect_exc), got_exc))
       if kind == 'finalize' and expect_exc is not RuntimeError:
         after = snap.store_nonempty(gc)
         ctx.check(after == before and gin.config_is_locked() is False, 'rejected-finalize-left-changes',
@@ -417,7 +726,9 @@ def run_case(ctx, case):
 EXH_OPS = [['finalize'], ['bind', 'a', '', 1], ['parse', 'b', 's', 2, True], ['macro', 3], ['register', 'register'], ['clear'],
            ['unlock', [['bind', 'a', '', 4]], 'ok'], ['unlock', [['bind', 'b', '', 5]], 'BodyError'], ['unlock', [['finalize']], 'ok'],
            ['poison', 'unbound-macro'], ['hookplan', 'conflict-spelling'],
-           ['unlock', [['unlock', [['parse', 'a', '', 6, False]], 'BodyBase']], 'ok']]
+           ['unlock', [['unlock', [['parse', 'a', '', 6, False]], 'BodyBase']], 'ok'],
+           ['register', 'class-method-register'], ['mkcm'], ['unlock', [['bind', 'a', 's', 7, 'tuple']], 'gin-ValueError', 'early'],
+           ['validref', 'bound-macro', '']]
 
 
 def finish(ctx):
@@ -440,7 +751,11 @@ def finish(ctx):
 
 LEVEL_TEXT = ('Runtime monitor with a lock state machine + store model compared after every operation of generated histories (lock flag, '
               'binding store, exception class), with hooks recording the configuration they were shown and fault injection through raising '
-              'bodies and hooks; thorough enumerates every sequence of length<=4 over a 12-operation alphabet.')
-LEVEL_NOTE = 'Trusted: the FSM/store model (~60 lines). Imports and gin.constant under lock are not constrained (DESIGN X).'
+              'bodies, raising gin operations, closed generators and hooks; registrations under the lock include classes, classes with registered '
+              'methods and implicit dynamic registration; every binding entry point (tuple keys, lists, files, includes, '
+              'parse_config_files_and_bindings) is driven under the lock; valid configurations with references must be accepted; '
+              'thorough enumerates every sequence of length<=4 over a 16-operation alphabet.')
+LEVEL_NOTE = ('Trusted: the FSM/store model (~80 lines). Imports and gin.constant under lock are not constrained (DESIGN X); nor is the order '
+              'in which built-in and user hooks run (a raising user hook together with an unbound macro may surface as either exception).')
 TECHNIQUE = 'runtime state-machine monitor over generated and exhaustively enumerated operation histories with injected faults'
 DESIGN_REF = 'DESIGN.md section 4, C12'
